@@ -108,6 +108,20 @@ def serverResume (c : Cache) (now : Nat) (sid : Str) (wantReply : Bool) (freshNo
     (c1.store e', if wantReply then .authorized freshNonce else .none,
       some ⟨e.user, e.authenticated, true, e.key⟩)
 
+/-- `handleSessionResumption` on a server configured with its own (`SecurityConfig.SessionCache`)
+    cache: the own cache is consulted first; only when it has no live entry is the global cache
+    (where `storeSession` puts handshake-negotiated sessions) consulted, and then the renewed entry
+    goes back into the cache it came from — never into the other one. -/
+def serverResume2 (own glob : Cache) (now : Nat) (sid : Str) (wantReply : Bool) (freshNonce : Nat) :
+    Cache × Cache × ResumeReply × Option ResumeOutcome :=
+  match (own.lookupNonExpired now sid).2 with
+  | some _ =>
+    let r := serverResume own now sid wantReply freshNonce
+    (r.1, glob, r.2.1, r.2.2)
+  | none =>
+    let r := serverResume glob now sid wantReply freshNonce
+    ((own.lookupNonExpired now sid).1, r.1, r.2.1, r.2.2)
+
 /-! ### client side: `ClientHandshake` over a cache -/
 
 inductive ServerAnswer
